@@ -319,6 +319,10 @@ func drawDialectModel(t *rapid.T, idx int) XDialect {
 					f.Ext = true
 				}
 				f.Desc = drawDesc(t, "fdesc")
+				if rapid.IntRange(0, 5).Draw(t, "comment_before_field") == 0 {
+					f.CommentBefore = rapid.SampledFrom([]string{" plain words ", ` <field type="uint8_t" name="old_one">no longer sent</field> `, " <extensions/> ",
+						` TODO <field type="uint64_t" name="t2">later</field> <field type="char[4]" name="t3"/> `, " a > b, c < d "}).Draw(t, "comment")
+				}
 				// presentation attributes of the schema: they say how a ground station shows the field and
 				// never what the field or the enum it refers to is
 				f.Attrs = rapid.SampledFrom([]string{"", "", "", ` display="bitmask"`, ` units="m/s"`, ` print_format="0x%04x"`, ` units="rad" invalid="NaN"`, ` instance="true"`, ` display="bitmask" print_format="0x%02x"`}).Draw(t, "fattrs")
